@@ -114,7 +114,8 @@ struct C02 : Profile {
       "$c = 5;\nprint $c;\n", "$c = 5;\n$c = $c + 1;\nprint $c;\n", "rt = 1;\nrt = \"now a string\";\nrt = rt + \"!\";\nprint rt;\n", "rt2 = \"s\";\nrt2 = 2.5;\nprint rt2 * 2;\n",
       "function anyv(k) return undefined is\nbegin\n  if k == 1 then\n    return \"s\";\n  end if;\n  return 7;\nend;\n", "av = anyv(0);\nprint av + 1;\n", "av = anyv(1);\nprint av + \"x\";\n",
       "tq = tab(2, 1);\ntq = tab(2, \"s\");\nprint tq.at(0) + \"!\";\n", "uq = tup(1, \"a\");\nuq = tup(\"b\", 2);\nprint uq@1 + \"c\";\n", "nn = int();\nnn = 5;\nprint nn + 1;\n", "mm:string;\nmm = \"x\";\nprint mm;\n",
-      "for lq in 1 to 2 loop\n  lq2 = lq * 2;\nend loop;\nlq = \"after\";\nprint lq;\n", "tz = tab(2, 3);\nforall ez in tz loop\n  ez = ez + 1;\nend loop;\nez = \"after\";\nprint ez tz.at(0);\n" };
+      "for lq in 1 to 2 loop\n  lq2 = lq * 2;\nend loop;\nlq = \"after\";\nprint lq;\n", "tz = tab(2, 3);\nforall ez in tz loop\n  ez = ez + 1;\nend loop;\nez = \"after\";\nprint ez tz.at(0);\n",
+      "ty = tab(2, 3);\nforall ey in ty loop\n  ey = ey + 1;\nend loop;\nprint isnull(ey) isnull(ey);\nprint ey;\n" };
     // a compound statement whose never-executed branch re-types an existing variable twice, then separately compiled uses of the variable
     static const char* DEAD[] = {
       "dr = 1;\n", "if dr > 5 then\n  dr = \"big\";\n  print dr;\n  dr = 2.5;\nend if;\n", "print dr + 1;\n", "dq = dr * 2;\nprint dq;\n",
@@ -124,7 +125,7 @@ struct C02 : Profile {
     if (g.chance(0.4)) { if (g.chance(0.5)) for (int i = 0; i < 4; ++i) st.push_back(DEAD[i]); else for (int i = 4; i < 7; ++i) st.push_back(DEAD[i]); }
     int ne = (int)g.range(2, 6);
     st.push_back(EXTRA[4]);   // the opaque function is declared once, in front of its uses
-    for (int i = 0; i < ne; ++i) { size_t c = g.below(13); if (c == 4) continue; st.push_back(EXTRA[c]); }
+    for (int i = 0; i < ne; ++i) { size_t c = g.below(14); if (c == 4) continue; st.push_back(EXTRA[c]); }
     json plan; plan["property"] = "C02"; plan["ast"] = p.ast;
     json sj = json::array(); for (auto& s : st) sj.push_back(enc(s)); plan["stmts"] = sj;
     // the schedule of compile units
@@ -148,6 +149,8 @@ struct C02 : Profile {
       for (const char* f : FN2) for (const char* x : VARS) for (const char* y : VARS) M.push_back(std::string(f) + "(" + x + ", " + y + ")");
       for (const char* f : FN1) for (const char* x : VARS) M.push_back(f[1] ? std::string(f) + "(" + x + ")" : std::string(f) + x);
       for (int i = 0; i < 30; ++i) ej.push_back(M[(group * 30 + i) % M.size()]);
+      // names the extra statements leave behind (skipped when the program does not define them)
+      for (const char* n : {"ey", "ey + 1", "rt", "rt2", "av", "tq", "uq", "nn", "mm", "lq", "ez", "dr", "ds", "$c"}) ej.push_back(n);
     }
     plan["exprs"] = ej;
     return plan;
